@@ -29,6 +29,9 @@ pub fn extra_depth() -> u64 {
     if scale() > 1 { 1 } else { 0 }
 }
 
+/// native stack of every thread that runs simulated chains
+pub const STACK_BYTES: usize = 512 << 20;
+
 /// one run in this many is a long history against a single part of a single contract
 pub const LONG_RUN_ONE_IN: u64 = 120;
 
